@@ -206,11 +206,12 @@ var c18Operands = []string{"Strs", "Flts", "Ins", "PIns", "In", "PIn", "In.Tags"
 
 func c18(r *mon.Run) {
 	r.Rule = "equivalence: documents of a Go struct family (leaf structs; nodes holding leaves by value and by nil / non-nil pointer; non-nil typed slices of structs, pointers (with nil entries), strings, float64, [][]float64; an interface{} field; roots by value, by pointer, as typed slices and inside a generic map) x type-guided seeded navigational expressions (field access in both capitalisations, indices, slices, flatten, list and filter projections with leaf comparisons, multi-select, || && !, pipes, length) plus every field path of depth <= 2: " +
-		"JSON-normalised Search(e, goDoc) must equal JSON-normalised Search(e, ToGeneric(goDoc)) (the generic path of the same build, itself judged by C01/C02/C07/C08). Safety: every built-in function with typed slices, structs and pointers in every argument position, hostile trees, embedded / unexported-field documents: no panic. " +
+		"JSON-normalised Search(e, goDoc) must equal JSON-normalised Search(e, ToGeneric(goDoc)) (the generic path of the same build, itself judged by C01/C02/C07/C08). Embedded structs (by value, by nil / set pointer, two levels; own fields shadowing promoted ones declared before and after the embed; a name promoted twice) x field access, projections, filters and multi-selects over every field name, against the model on the encoding/json form. Safety: every built-in function with typed slices, structs and pointers in every argument position, hostile trees, embedded / unexported-field documents: no panic. " +
 		"Non-trivial = distinct (expression, document) whose generic result is non-null; cases traversing a nil pointer are counted separately."
 	r.Floor = 1000
 	r.Assumptions = []string{"the equivalent generic document is docs.ToGeneric: struct -> map keyed by field name, nil pointer -> null, typed slice -> []interface{}",
-		"embedded structs, unexported fields, nil typed slices and maps with non-string keys are outside the equivalence family (the property's quantifier) and are used for the no-panic clause only"}
+		"unexported fields, nil typed slices and maps with non-string keys are outside the equivalence family (the property's quantifier) and are used for the no-panic clause only",
+		"embedded structs: the JSON form is what encoding/json produces (embedded structs flattened by Go's selector rules); names of embedded types themselves are not used in expressions"}
 	ne := tierPick(r, 60000, 1200000)
 	eq := mon.Workload{Name: "equivalence", N: ne,
 		Do: func(i int, t *mon.Tally) {
@@ -361,7 +362,61 @@ func c18(r *mon.Run) {
 				t.Nontrivial("odd:" + expr)
 			}
 		}}
-	r.Exec(eq, paths, oddw, safety, hostile)
+	// embedded structs: a name means what Go's selector rules say (own field over promoted one wherever it is
+	// declared, shallowest wins, a name promoted twice at one depth is no field, nothing is promoted through a
+	// nil embedded pointer). encoding/json flattens embedded structs by the same rules, so the JSON form of
+	// these documents is Marshal+Unmarshal and the model runs on that.
+	var etrees []*gen.Expr
+	F := docs.ShadowFieldNames
+	for _, k := range docs.ShadowKeys {
+		K := gen.Field(k)
+		switch k {
+		case "Items", "PItems", "QItems":
+			for _, f := range F {
+				etrees = append(etrees, gen.Chain(K, gen.StListStar(), gen.StField(f)), gen.Chain(K, gen.StFlatten(), gen.StField(f)), gen.Chain(K, gen.StIndex(0), gen.StField(f)), gen.Chain(K, gen.StIndex(-1), gen.StField(f)),
+					gen.Chain(K, gen.StFilter(gen.Field(f)), gen.StField("Name")), gen.Chain(K, gen.StSliceS("1", "", ""), gen.StField(f)), gen.Func("length", gen.Chain(K, gen.StFilter(gen.Field(f)))),
+					gen.Chain(K, gen.StFilter(gen.Not(gen.Field(f))), gen.StMultiList(gen.Field("Name"), gen.Field("Tag"))))
+			}
+			etrees = append(etrees, gen.Chain(K, gen.StFilter(gen.Cmp("==", gen.Field("Name"), gen.Raw("own-b"))), gen.StField("ID")), gen.Chain(K, gen.StFilter(gen.Cmp(">", gen.Field("ID"), gen.LitJSON("1"))), gen.StField("Only")),
+				gen.Chain(K, gen.StListStar(), gen.StMultiList(gen.Field("Name"), gen.Field("ID"), gen.Field("Only"))), gen.Chain(K, gen.StListStar(), gen.StMultiHash([]gen.Key{{Name: "n"}, {Name: "i"}}, []*gen.Expr{gen.Field("Name"), gen.Field("ID")})),
+				gen.Chain(K, gen.StFilter(gen.Cmp("==", gen.Field("Name"), gen.Raw("pset"))), gen.StField("Only")), gen.Chain(K, gen.StFilter(gen.Cmp("==", gen.Field("Tag"), gen.Raw("qset"))), gen.StField("Name")))
+		default:
+			for _, f := range F {
+				etrees = append(etrees, gen.Chain(K, gen.StField(f)), gen.Or(gen.Chain(K, gen.StField(f)), gen.Raw("none")), gen.Pipe(K, gen.Field(f)))
+			}
+			etrees = append(etrees, gen.Chain(K, gen.StMultiList(gen.Field("Name"), gen.Field("ID"), gen.Field("Only"))), gen.Chain(K, gen.StMultiHash([]gen.Key{{Name: "n"}, {Name: "i"}}, []*gen.Expr{gen.Field("Name"), gen.Field("ID")})),
+				gen.MultiList(gen.Chain(K, gen.StField("Name")), gen.Chain(gen.Field("Deep"), gen.StField("ID")), gen.Chain(K, gen.StField("Only"))))
+		}
+	}
+	const eorders = 4
+	nes := tierPick(r, 3, 40)
+	emb := mon.Workload{Name: "embedded-structs", N: len(etrees) * eorders * nes, Batch: 500,
+		Describe: func(i int) string { return gen.Spell(etrees[i%len(etrees)]) + " on docs.ShadowDoc" },
+		Do: func(i int, t *mon.Tally) {
+			tree := etrees[i%len(etrees)]
+			k := i / len(etrees)
+			mk := func() interface{} { return docs.ShadowDoc(gen.DeriveN(r.Seed, "c18shadow", k/eorders), k%eorders) }
+			jform := docs.JSONForm(mk())
+			expr := gen.SpellTight(tree)
+			res := ref.RefSet(tree, jform, gen.Quirks{})
+			t.Eval()
+			for q, o := range []mon.Observed{apiSearch(expr, mk()), apiCompiledSearch(expr, mk())} {
+				if !o.Panicked && o.Err == nil {
+					o.V = docs.JSONForm(o.V)
+				}
+				if !matches(res, o) {
+					r.Violate(&mon.Violation{Workload: "embedded-structs", Index: i, API: []string{"Search", "Compile+Search"}[q], Expr: expr, Doc: jform,
+						DocDesc:  "Go form (embedded structs, shadowed and ambiguous names, nil embedded pointers): " + clipStr(mon.Snapshot(mk()), 900) + "  JSON form: " + ref.Canon(jform),
+						Expected: expectedString(res), Observed: o.String(), Class: "embedded-structs: differs from the JSON form"})
+					return
+				}
+			}
+			if nonNull(res) {
+				t.Nontrivial("emb:" + expr + ref.Canon(jform))
+				t.Count("embedded-struct cases with a non-null expected result")
+			}
+		}}
+	r.Exec(eq, paths, oddw, emb, safety, hostile)
 }
 
 func pickKey(operand string) string {
